@@ -37,7 +37,7 @@ logging.disable(logging.CRITICAL)
 
 THEOREM_FILE = "Properties/C12.v"
 COQCHK = ["Properties.C12"]
-COQ_NEEDS = ["HashDiff.HashDiffShow", "HashDiff.HashDiffYShow"]
+COQ_NEEDS = ["HashDiff.HashDiffShow", "HashDiff.HashDiffYShow", "HashDiff.HashDiffTextShow"]
 RULE = ("one case = one pair (t1, t2) under one option set F and one value of report_repetition (DeepHash gets ignore_repetition = not "
         "report_repetition); both engines are run on it; families alt / near / rand / fixed (module docstring); option sets: every "
         "non-empty subset of the four modelled options, and for the direct oracle also each unmodelled shared option alone and paired "
@@ -1184,7 +1184,7 @@ def gen_dt_zones(rng, sp):
     return (v, w, []) if rng.random() < 0.5 else (w, v, [])
 
 
-def gen_key_flip(rng, sp):
+def gen_key_flip(rng, sp, decimals=True):
     """numeric dict keys equal in value but of another type (1 / 1.0 / Decimal(1)), both key orders"""
     v = C11.gen_value(rng, rng.choice([1, 2, 2]), 3, True, True, False)
     if not isinstance(v, dict):
@@ -1194,9 +1194,9 @@ def gen_key_flip(rng, sp):
         if isinstance(k, bool) or rng.random() < 0.3:
             return k
         if isinstance(k, int):
-            return rng.choice([float(k), Decimal(k)])
+            return rng.choice([float(k), Decimal(k)] if decimals else [float(k)])
         if isinstance(k, float) and k == int(k):
-            return rng.choice([int(k), Decimal(int(k))])
+            return rng.choice([int(k), Decimal(int(k))] if decimals else [int(k)])
         return k
     w = vmap(v, lambda a: a, fk)
     w = C05.rebuild(w, rng)
@@ -1489,6 +1489,64 @@ def facing_leaves(t1, t2, acc):
     return acc
 
 
+def facing_sets(t1, t2, acc):
+    """pairs of sets / frozensets of one kind that _diff compares directly (root, dict values under ==-equal keys)"""
+    if isinstance(t1, dict) and isinstance(t2, dict):
+        for k, x in t1.items():
+            try:
+                if k in t2 and any(q is k or (type(q) is type(k) and q == k) for q in t2):
+                    facing_sets(x, t2[k], acc)
+            except TypeError:
+                pass
+    elif isinstance(t1, (set, frozenset)) and type(t1) is type(t2):
+        acc.append((t1, t2))
+    return acc
+
+
+def y_sets_replay(ctx, pairs):
+    """Y.C12_set_hash_iff_diff_partial replayed on the implementation, hypotheses observed: for every facing pair of sets of a
+    generated pair with trunc_free (truncate_datetime off, or no datetime / time member), exclude_types empty (never passed),
+    report_repetition off, inside the model's universe and free of ==-aliases (the shared table is outside the Y model): both
+    engines on that pair of sets must agree; where trunc_free is FALSE the case is counted (that is the finding's territory)."""
+    n = n_out = n_rep = 0
+    seen = set()
+    for _fam, t1, t2, sp, _rep in pairs:
+        kw = kwargs_of(sp)
+        for a, b in facing_sets(t1, t2, []):
+            key = (lit(a), lit(b), name_of(sp))
+            if key in seen or not (in_yuniverse(a) and in_yuniverse(b)) or harmful_alias(a, b, kw):
+                continue
+            seen.add(key)
+            if sp["trunc"] and any(isinstance(x, (datetime.datetime, datetime.time)) for x in list(a) + list(b)):
+                n_out += 1
+                ctx.count("theorem_y_sets:hypothesis_false(trunc_free)")
+                continue
+            he, dv = hash_verdict(a, b, kw, False), diff_verdict(a, b, kw, False)[0]
+            if not isinstance(he, bool) or dv.startswith("EXC:"):
+                ctx.count("theorem_y_sets:an_engine_raises(outside the statement)")
+                continue
+            n += 1
+            ctx.count("theorem_y_sets:%s" % ("hash_eq" if he else "hash_ne"))
+            if agree(he, dv) is not True:
+                ctx.break_("correspondence", {"name": "Y.C12_set_hash_iff_diff_partial", "a": lit(a), "b": lit(b), "options": name_of(sp),
+                                              "what": "two sets inside trunc_free: hash_eq=%r diff=%s" % (he, dv)})
+            # Y.C12_set_hash_iff_diff_rep_partial: report_repetition on; additional hypothesis nodup_txt (no two members of one set merged)
+            if merged_members(a, kw) or merged_members(b, kw):
+                ctx.count("theorem_y_sets_rep:hypothesis_false(nodup_txt)")
+                continue
+            he, dv = hash_verdict(a, b, kw, True), diff_verdict(a, b, kw, True)[0]
+            if isinstance(he, bool) and not dv.startswith("EXC:"):
+                n_rep += 1
+                ctx.count("theorem_y_sets_rep:%s" % ("hash_eq" if he else "hash_ne"))
+                if agree(he, dv) is not True:
+                    ctx.break_("correspondence", {"name": "Y.C12_set_hash_iff_diff_rep_partial", "a": lit(a), "b": lit(b), "options": name_of(sp),
+                                                  "what": "two sets inside trunc_free and nodup_txt, report_repetition: hash_eq=%r diff=%s" % (he, dv)})
+    ctx.note("extended_universe_sets_theorem_replayed_on_implementation",
+             "Y.C12_set_hash_iff_diff_partial: %d distinct facing pairs of sets satisfy its hypotheses (trunc_free, report_repetition off) - the two real "
+             "engines agree on every one; %d pairs are outside trunc_free (truncate_datetime with a datetime / time member); "
+             "Y.C12_set_hash_iff_diff_rep_partial (report_repetition on, nodup_txt observed): %d pairs, the engines agree on every one" % (n, n_out, n_rep))
+
+
 def y_theorem_replay(ctx, pairs):
     """Y.C12_datetime_hash_iff_diff and Y.C12_enum_transfer_partial replayed on the implementation with their
     hypotheses OBSERVED: for every facing pair of leaves of a generated pair that satisfies the hypotheses
@@ -1624,7 +1682,70 @@ def y_stream(ctx, pool, pairs, label="ymodel"):
         cases.append((expr, [he if isinstance(he, bool) else "raised", dv], case))
     ctx.coq_cases("c12y_pairs", YHEADER, cases, shard=150, label="both_engines_on_listfree_pairs_extended_universe_all_options")
     y_theorem_replay(ctx, pairs)
+    y_sets_replay(ctx, pairs)
     return hyp
+
+
+# --------------------------------------------------------------------------
+# text beyond ASCII and the two float zeros (HashDiffTextModel.v): atoms only
+# --------------------------------------------------------------------------
+THEADER = "From DD Require Import Base.PyStr HashDiff.HashDiffTextModel HashDiff.HashDiffTextShow.\nLocal Open Scope N_scope."
+T_ATOMS = ["a", "A", "", "\u00e9", "\u00c9", "caf\u00e9", "CAF\u00c9", "\u00df", "\u00b5", "\u00d7", "\u00f7", "\u00ff", "a\u00e9",
+           b"a", b"A", b"", "\u00e9".encode(), "\u00c9".encode(), "caf\u00e9".encode(), "CAF\u00c9".encode(), "\u00b5".encode(), b"a\xc3\xa9",
+           b"\xff", b"\xfe", b"\xc3", b"\xa9", b"\xc0\x80", b"\xc3A", b"A\xff", b"\xe9", b"\xc9", 0.0, -0.0]
+
+
+def t_in_universe(a):
+    if isinstance(a, str):
+        return all(ord(ch) < 256 for ch in a) and not tag_like(a)
+    if isinstance(a, bytes):
+        return not any(0xC4 <= ch <= 0xF4 for ch in a) and not (a.isascii() and tag_like(a))
+    return isinstance(a, float) and a == 0.0
+
+
+def t_atom_to_coq(a):
+    if isinstance(a, str):
+        return "(TS [%s])" % "; ".join("%d" % ord(ch) for ch in a)
+    if isinstance(a, bytes):
+        return "(TB [%s])" % "; ".join("%d" % ch for ch in a)
+    return "(TZ %s)" % core.coq_bool(neg_zero(a))
+
+
+def t_opts(sp):
+    return "(mkT %s %s %s %s)" % (core.coq_bool(sp["case"]), core.coq_bool(sp["strty"]), core.coq_bool(sp["numty"]),
+                                  "None" if sp["sig"] is None else "(Some %d)" % sp["sig"])
+
+
+def text_level(ctx, specs):
+    """both engines on pairs of text / zero atoms against run_c12t, and the hasher input against run_c12t_text;
+    the direct oracle runs on the pairs too (findings negative-zero, nonascii-bytes, undecodable-bytes live here)"""
+    from deepdiff import DeepHash
+    rng = ctx.rng
+    ident = lambda x: x  # noqa
+    atoms = [a for a in T_ATOMS if t_in_universe(a)]
+    allpairs = [(a, b) for a in atoms for b in atoms]
+    texts, pairs = [], []
+    for sp in specs:
+        kw, F, nm = kwargs_of(sp), t_opts(sp), name_of(sp)
+        for a in atoms:
+            try:
+                exp = DeepHash(a, hasher=ident, **kw)[a]
+            except UnicodeDecodeError:
+                exp = "raised"
+            texts.append(("run_c12t_text %s %s" % (F, t_atom_to_coq(a)), exp, {"atom": lit(a), "options": nm}))
+        for a, b in rng.sample(allpairs, 280 if ctx.thorough else 70):
+            he, dv = hash_verdict(a, b, kw, False), diff_verdict(a, b, kw, False)[0]
+            case = {"t1": lit(a), "t2": lit(b), "spec": sp, "options": nm, "rep": False, "hash_eq": he, "diff": dv, "family": "text_atoms"}
+            ctx.seen((lit(a), lit(b), nm, "t"), nontrivial=(lit(a) != lit(b)))
+            ok = agree(he, dv)
+            ctx.count("text_atoms:verdicts:hash_%s/diff_%s" % ({True: "eq", False: "ne"}.get(he, "exc"), dv))
+            if ok is False:
+                r = ctx.fail(case, describe(he, dv) + " [options: %s]" % nm)
+                att = attribution(case)
+                ctx.count("attributed:%s:hash_%s/diff_%s" % (att[0] if (att and r == "known") else r, pattern(case)[0], pattern(case)[1]))
+            pairs.append(("run_c12t %s %s %s" % (F, t_atom_to_coq(a), t_atom_to_coq(b)), [he if isinstance(he, bool) else "raised", dv], case))
+    ctx.coq_cases("c12t_text", THEADER, texts, shard=300, label="hasher_input_text_of_nonascii_text_and_zeros")
+    ctx.coq_cases("c12t_pairs", THEADER, pairs, shard=300, label="both_engines_on_nonascii_text_and_zero_atoms")
 
 
 # --------------------------------------------------------------------------
@@ -1652,6 +1773,19 @@ def _task(args):
             pairing = (sum(len(ji) for _p, ji, _x, _y in tbl), ok)
             cfg = CFG0 if knobs.get("threshold_to_diff_deeper") == 0 else CFG
             expr = "run_c12_memo %s %s %s %s %s" % (cfg, core.coq_bool(rep), C05.coq_pairs_table(tbl), V.to_coq(t1), V.to_coq(t2))
+    elif want_model and is_modelled(sp) and in_universe(t1, t2) and isinstance(he, bool) and alias and not harmful_alias(t1, t2, kw, acting=True) \
+            and not any(isinstance(a, bool) for a in atoms_of(t1) + atoms_of(t2) + keys_of(t1) + keys_of(t2)):
+        # WITH options: the ==-aliases sit where the diff engine does not consult the shared table; the hash side runs on
+        # HashModel.deephash (own table per value) under the options, the diff side on the memo-free model
+        knobs = sp.get("knobs", {})
+        dv, rec = diff_verdict(t1, t2, kw, rep, record=True, **knobs)
+        if dv in ("empty", "nonempty") and not rec[2]:
+            in_model = True
+            tbl, ok, _h = rec
+            pairing = (sum(len(ji) for _p, ji, _x, _y in tbl), ok)
+            cfg = CFG0 if knobs.get("threshold_to_diff_deeper") == 0 else CFG
+            expr = "run_c12_hmemo %s %s %s %s %s %s" % (cfg, coq_opts(sp), core.coq_bool(rep), C05.coq_pairs_table(tbl), V.to_coq(t1), V.to_coq(t2))
+            gexpr = "HMEMO"
     elif want_model and is_modelled(sp) and in_universe(t1, t2) and isinstance(he, bool) and not alias:
         knobs = sp.get("knobs", {})
         dv, rec = diff_verdict(t1, t2, kw, rep, record=True, **knobs)
@@ -1711,6 +1845,9 @@ def evaluate(ctx, pool, jobs, label):
             cases.append((expr, [he, exp_dv], dict(case, guard_expr=gexpr, agree=ok)))
             if gexpr is None:
                 ctx.count("model:memo_threaded_models(==-aliases, default options)")
+            elif gexpr == "HMEMO":
+                ctx.count("model:hash_side_on_own_table_with_options(==-aliases where the diff engine is not affected)")
+                cases[-1] = (expr, [he, exp_dv], dict(case, guard_expr=None, agree=ok))
             ctx.count("model:paired_levels" if pairing[0] else "model:no_pairs")
             if not pairing[1]:
                 ctx.break_("correspondence", dict(case, what="recorded pairing is not a symmetric partial injection"))
@@ -1850,6 +1987,43 @@ def pools(ctx, specs):
             ctx.count("pool:classes", len(set(first)))
             ctx.count("pool:values", len(pool))
     ctx.coq_cases("c12_pool", HEADER, cases, shard=2, label="sha256_equality_pattern_over_pools")
+    # the hash engine's own table WITH options: values containing ==-aliases (1 / 1.0 / True, (1, 'a') / (1.0, 'a'), equal keys of
+    # another type in sibling dicts) inside ONE value, against HashModel.deephash under F (finding K2 inside one DeepHash call)
+    mcases = []
+
+    def retype(a):
+        if isinstance(a, bool):
+            return int(a) if rng.random() < 0.5 else a
+        if type(a) is int:
+            return rng.choice([float(a), a, a == 1 or a == 0 and bool(a) or float(a)]) if rng.random() < 0.8 else a
+        if type(a) is float and a == int(a):
+            return int(a) if rng.random() < 0.7 else a
+        return a
+    for sp in specs:
+        kw = kwargs_of(sp)
+        pool = []
+        tries = 0
+        while len(pool) < (40 if ctx.thorough else 16) and tries < 400:
+            tries += 1
+            v = C11.gen_value(rng, rng.choice([1, 2, 2]), 3, True, True, False)
+            try:
+                w = vmap(v, retype, retype)
+            except Exception:  # noqa (merged keys / members)
+                continue
+            for x in ([v, w], [w, v], (v, w), {"p": v, "q": w}, [v, v], [v, C05.rebuild(w, rng)]):
+                if in_universe(x):
+                    pool.append(x)
+        for rep in (False, True):
+            hs = []
+            for v in pool:
+                x = copy.deepcopy(v)
+                hs.append(DeepHash(x, ignore_repetition=not rep, **kw)[x])
+            first = [hs.index(h) for h in hs]
+            mcases.append(("run_c12_classes_memo %s %s %s" % (coq_opts(sp), core.coq_bool(rep), core.coq_list(V.to_coq(v) for v in pool)),
+                           first, {"options": name_of(sp), "rep": rep, "pool": [lit(v) for v in pool][:5]}))
+            ctx.count("pool_memo:values", len(pool))
+            ctx.count("pool_memo:values_with_harmful_alias", sum(1 for v in pool if harmful_alias(v, None, kw)))
+    ctx.coq_cases("c12_pool_memo", HEADER, mcases, shard=2, label="sha256_equality_pattern_over_pools_with_aliases_inside_one_value(own table, with options)")
 
 
 # --------------------------------------------------------------------------
@@ -1872,6 +2046,7 @@ WITNESSES = [
     ("C12_bool_int_list_refuted(pairing off)", [True], [1], dict(_s(numty=True), knobs={"cutoff_intersection_for_pairs": 0}), False, (False, "nonempty")),
     # round 3
     ("C12_memo_alias_refuted", [1], [1.0], _s(), False, (False, "empty")),
+    ("C12_memo_alias_options_refuted", {2: [], "a": 2}, {"a": 2, 2.0: []}, _s(case=True, sig=3), False, (True, "nonempty")),
     ("C12_k9_boundary(True/2 inside)", True, 2, _s(numty=True), False, (False, "nonempty")),
     ("C12_k9_boundary(2/True inside)", 2, True, _s(numty=True), False, (False, "nonempty")),
     ("C12_k9_boundary(0.5/False outside)", 0.5, False, _s(numty=True, sig=0), False, (False, "empty")),
@@ -1973,6 +2148,19 @@ def run(ctx):
                        ({"k": [1, 2.0]}, {"k": [2, 1.0]}, _s()), ([(1, "a")], [(1.0, "a")], _s()), ([1, 2], [1.0, 3], _s())]:
         for rep in (False, True):
             jobs.append(("memo", t1, t2, sp, rep, True))
+    # numeric dict keys of equal value and other type (int <-> float) under key cleaning + digits: aliases the diff engine does not see
+    kf_specs = [mk(case=True, sig=2), mk(strty=True, sig=1), mk(case=True, sig=0), mk(case=True, strty=True, sig=3), mk(case=True, sig=2, numty=True), mk(strty=True, numty=True)]
+    for i in range(240 if ctx.thorough else 36):
+        sp = kf_specs[i % len(kf_specs)]
+        try:
+            t1, t2, _log = gen_key_flip(rng, sp, decimals=False)
+        except Exception:  # noqa (merged keys)
+            continue
+        jobs.append(("keyflip", t1, t2, sp, rng.random() < 0.5, True))
+    for t1, t2, sp in [({2: [], "a": 2}, {"a": 2, 2.0: []}, _s(case=True, sig=3)), ({"a": 2, 2.0: []}, {2: [], "a": 2}, _s(case=True, sig=3)),
+                       ({1: "x", "k": 1.0}, {1.0: "x", "k": 1}, _s(strty=True, sig=1))]:
+        for rep in (False, True):
+            jobs.append(("keyflip", t1, t2, sp, rep, True))
     rich = []
     for t1, t2, sp in FIXED_RICH:
         for rep in (False, True):
@@ -2023,7 +2211,7 @@ def run(ctx):
             for rep in (False, True):
                 ypairs.append(("fixed", t1, t2, sp, rep))
     for sp in y_specs(rng):
-        for i in range(40 if ctx.thorough else 8):
+        for i in range(30 if ctx.thorough else 8):
             t1, t2 = gen_y_pair(rng, sp)
             if in_yuniverse(t1) and in_yuniverse(t2) and not (sp["enum"] and enum_meets_container(t1, t2)):
                 ypairs.append(("ygen", t1, t2, sp, rng.random() < 0.5))
@@ -2045,6 +2233,7 @@ def run(ctx):
     ctx.coq_cases("c12_pairs", HEADER, cases, shard=60, label="both_engines_on_pairs")
     lap("coq:pairs")
     atom_level(ctx, mspecs)
+    text_level(ctx, mspecs)
     lap("coq:atoms")
     pools(ctx, mspecs if ctx.thorough else rng.sample(mspecs, 6))
     lap("coq:pools")
